@@ -70,6 +70,12 @@ impl Rng {
         }
     }
 
+    /// Random bytes of a random length in lo..=hi.
+    pub fn bytes_between(&mut self, lo: u64, hi: u64) -> Vec<u8> {
+        let n = self.range(lo, hi) as usize;
+        self.bytes(n)
+    }
+
     pub fn bytes(&mut self, n: usize) -> Vec<u8> {
         let mut v = Vec::with_capacity(n);
         while v.len() < n {
